@@ -382,6 +382,9 @@ def crossing(ck):
     for w in range(60 if not ck.thorough() else 1500):
         if ck.mine(w):
             c01.run_crossing(ck, w, ck.seed * 1000003 + 9901)
+    for w in range(24 if not ck.thorough() else 480):
+        if ck.mine(w + 3):
+            c01.run_crossing_two_groups(ck, w, ck.seed * 1000003 + 9966)
     for w in range(16 if not ck.thorough() else 160):
         if ck.mine(w):
             c01.run_leading_zero(ck, w, ck.seed * 1000003 + 9977)
@@ -397,6 +400,7 @@ def verdict(ck):
     c = ck.counters
     t = ck.thorough()
     ck.floor('crossing-exchange walks', c['crossing.walks'], 40)
+    ck.floor('crossing exchanges for protect entries with different PFS groups', c['crossing2.walks'], 16)
     ck.floor('handshakes with an SPI field inside the IKE_SA_INIT proposal of the answer', c['proposal_spi.handshakes'], 12)
     ck.floor('INVALID_KE_PAYLOAD histories that start with an IKE_SA rekey pushed back by TEMPORARY_FAILURE', c['ke_retry.histories_after_a_refused_ike_rekey'], 6)
     ck.floor('end-to-end handshakes whose Diffie-Hellman result has a leading zero octet', c['leading_zero.completed_with_rfc_keys'], 12)
